@@ -385,6 +385,13 @@ func TestC10(t *testing.T) {
 				c.Flags |= f.bit
 			}
 		}
+		// verbosity must not change what is written
+		switch rapid.IntRange(0, 5).Draw(t, "verbosity") {
+		case 0:
+			c.Args = append(c.Args, "-v")
+		case 1:
+			c.Args = append(c.Args, "-d")
+		}
 		c.Answer = rapid.SampledFrom([]string{"y\n", "Y\n", " y \n", "n\n", "\n", "yes\n", "x\n", "", "y", "N\n", "\ty\r\n"}).Draw(t, "answer")
 		c.Edit = rapid.Bool().Draw(t, "edit")
 		return c
